@@ -2,7 +2,7 @@
    [npow], which keeps C's pow(0, y) = 0 for non-integer y > 0 (Coq's Rpower 0 y is 1): TPLSimple
    evaluates max(1 - h, 0) ** nu at the range edge and Stable evaluates 0 ** alpha at lag 0. *)
 From Coq Require Import Reals Lra Lia ZArith List Bool.
-From GS Require Import Num Loops RInst C02_Model.
+From GS Require Import Num Loops Formulas RInst C02_Model.
 Import ListNotations.
 Open Scope R_scope.
 
@@ -93,14 +93,24 @@ Section Unfold.
   Proof. rewrite sq_R. apply Rle_0_sqr. Qed.
   Lemma nmin_R a b : nmin O a b = Rmin a b.
   Proof.
-    unfold nmin. simpl. unfold Rltb, Rmin. destruct (Rlt_dec a b), (Rle_dec a b); try lra; reflexivity.
+    unfold nmin, fmin. simpl. unfold Rltb, Rmin. destruct (Rlt_dec b a), (Rle_dec a b); try lra; reflexivity.
   Qed.
   Lemma nmax_R a b : nmax O a b = Rmax a b.
   Proof.
-    unfold nmax. simpl. unfold Rleb, Rmax. destruct (Rle_dec b a), (Rle_dec a b); try lra; reflexivity.
+    unfold nmax, fmax. simpl. unfold Rltb, Rmax. destruct (Rlt_dec a b), (Rle_dec a b); try lra; reflexivity.
+  Qed.
+  Lemma isclose0_R k : isclose0 O k = Rleb (Rabs k) (1 / 100000000).
+  Proof.
+    unfold isclose0, fisclose, nlit. simpl. rewrite Rminus_0_r, Rabs_R0.
+    unfold Rleb. destruct (Rle_dec (Rabs k) _), (Rle_dec (Rabs k) _); try reflexivity; exfalso; lra.
   Qed.
   Lemma isclose0_true k : isclose0 O k = true <-> Rabs k <= 1 / 100000000.
-  Proof. unfold isclose0, lit, nlit. simpl. rewrite Rleb_true. reflexivity. Qed.
+  Proof. rewrite isclose0_R. apply Rleb_true. Qed.
   Lemma isclose0_false k : isclose0 O k = false <-> 1 / 100000000 < Rabs k.
-  Proof. unfold isclose0, lit, nlit. simpl. rewrite Rleb_false. reflexivity. Qed.
+  Proof. rewrite isclose0_R. apply Rleb_false. Qed.
+  Lemma ilit_R n : ilit O n = IZR n.
+  Proof.
+    unfold ilit. destruct (n =? 0)%Z eqn:E0; [apply Z.eqb_eq in E0; subst; reflexivity|].
+    destruct (n =? 1)%Z eqn:E1; [apply Z.eqb_eq in E1; subst; reflexivity|]. reflexivity.
+  Qed.
 End Unfold.
